@@ -345,7 +345,17 @@ def _fantasy_child(m, f):
             m.prediction_strategy = None
         if m.prediction_strategy is None:
             predict(m, f.xs)
-        return m.get_fantasy_model(list(f.Xf) if isinstance(f.Xf, tuple) else f.Xf, f.yf)
+        try:
+            return m.get_fantasy_model(list(f.Xf) if isinstance(f.Xf, tuple) else f.Xf, f.yf)
+        except RuntimeError as e:
+            if "graph leaves" not in str(e):
+                raise
+            # non-leaf tensors held elsewhere (kernel-level caches of KISS-GP): the recorded deepcopy finding. Mode switch (the
+            # documented way of dropping every cache), a prediction with autograd off, then the fantasy
+            m.train()
+            m.eval()
+            predict(m, f.xs)
+            return m.get_fantasy_model(list(f.Xf) if isinstance(f.Xf, tuple) else f.Xf, f.yf)
 
 
 def apply_op(fam, m, op, state):
@@ -492,10 +502,7 @@ def apply_op(fam, m, op, state):
         # (autograd off: kernel-specific strategies keep non-leaf caches otherwise and the model copy inside get_fantasy_model
         # refuses them - the recorded deepcopy finding; the default strategy detaches its caches)
         with torch.no_grad():
-            m.prediction_strategy = None if any(getattr(v_, "grad_fn", None) is not None for v_ in getattr(m.prediction_strategy, "_memoize_cache", {}).values() if torch.is_tensor(v_)) else m.prediction_strategy
-            if m.prediction_strategy is None:
-                predict(m, f.xs)
-            fm = m.get_fantasy_model(list(f.Xf) if isinstance(f.Xf, tuple) else f.Xf, f.yf)
+            fm = _fantasy_child(m, f)
             fm.eval()
             first = [predict(fm, f.xs, cfg) for cfg in ((False, True, False, True), (True, True, False, True))]
             fm.train()
